@@ -1,4 +1,5 @@
 mod engine;
+mod fuzzdec;
 mod hist;
 mod joinworld;
 mod props_conc;
